@@ -172,3 +172,48 @@ Proof.
   - unfold num_of_Z, num_of_int in En. destruct (negb _ && _); [|destruct (post_init _ _ _)]; discriminate.
   - unfold num_of_Z, num_of_int in En. destruct (negb _ && _); [|destruct (post_init _ _ _)]; discriminate.
 Qed.
+
+(* ---------- the 8-bit operand positions: 8-bit immediate, forced direct, FCB ---------- *)
+Theorem label_expression_8bit_emits ss this s s' l op r m :
+  is_relative_op (s_operand s) = false -> operand_value (s_operand s) = VExpr l op r m true ->
+  cp_needs (s_pkg s) = false ->
+  (match s_operand s with OImmediate _ => imm_digits (s_instr s) | OPseudo _ _ => if Tables.is_multi_byte (s_instr s) then 2 else 4
+                        | ODirect _ => 2 | _ => 4 end) = 2 ->
+  fix_stmt ss this s = Ok s' ->
+  exists z, calc_offset_z ss l op r = Ok z /\ (-128 <= z <= 255)%Z /\
+            ((match s_operand s with ODirect _ => false | _ => true end) = false -> (0 <= z)%Z) /\
+            emit_value (cp_add (s_pkg s')) = Ok [Z.to_N (z mod 256)].
+Proof.
+  intros Hrel Hov Hneeds Hdig H. unfold fix_stmt in H. rewrite Hrel, Hov, Hdig in H.
+  unfold addr_offset in H. rewrite Hneeds in H. cbn [andb] in H.
+  apply bind_ok in H as [s1 [H1 H]]. inversion H; subst s'. clear H.
+  apply bind_ok in H1 as [a [Ha H1]]. apply bind_ok in H1 as [a' [Hf H1]]. inversion H1; subst s1. clear H1.
+  apply as_te_ok in Hf. destruct (calc_offset_value _ _ _ _ _ Ha) as (z & Hz & Hv & _).
+  destruct (fit_value_2_emits _ _ _ Hf) as (Hr & Hs & He). rewrite Hv in *.
+  exists z. split; [exact Hz|]. split; [exact Hr|]. split; [exact Hs|]. unfold with_add, set_pkg. cbn [s_pkg cp_add]. exact He.
+Qed.
+
+Theorem label_expression_8bit_rejects ss this s l op r m z :
+  is_relative_op (s_operand s) = false -> operand_value (s_operand s) = VExpr l op r m true ->
+  (match s_operand s with OImmediate _ => imm_digits (s_instr s) | OPseudo _ _ => if Tables.is_multi_byte (s_instr s) then 2 else 4
+                        | ODirect _ => 2 | _ => 4 end) = 2 ->
+  calc_offset_z ss l op r = Ok z -> (z < -128 \/ 255 < z)%Z ->
+  fix_stmt ss this s = Diag 2.
+Proof.
+  intros Hrel Hov Hdig Hz Hout. unfold fix_stmt. rewrite Hrel, Hov, Hdig.
+  unfold calc_offset. rewrite Hz. cbn [bind].
+  destruct (num_of_Z z (Some 4) MExtended) as [n| | | |] eqn:En; cbn [as_translation_error bind]; try reflexivity.
+  - assert (Hv : value_number (VNum n) = z) by (change (value_number (VNum n)) with (num_val n); eapply num_of_Z_val; eauto).
+    set (sg := match s_operand s with ODirect _ => false | _ => true end).
+    assert (Hf : fit_value (VNum n) 2 sg = Diag 21).
+    { unfold fit_value. fold (value_number (VNum n)). rewrite Hv. change (16 ^ Z.of_N 2)%Z with 256%Z.
+      assert (E : ((256 <=? z) || (z <? (if sg then - (256 / 2) else 0)))%Z = true).
+      { apply orb_true_iff. destruct Hout as [Hlo | Hhi].
+        - right. apply Z.ltb_lt. destruct sg; change (- (256 / 2))%Z with (-128)%Z; lia.
+        - left. apply Z.leb_le. lia. }
+      now rewrite E. }
+    rewrite Hf. reflexivity.
+  - unfold num_of_Z, num_of_int in En. destruct (negb _ && _); [|destruct (post_init _ _ _)]; discriminate.
+  - unfold num_of_Z, num_of_int in En. destruct (negb _ && _); [|destruct (post_init _ _ _)]; discriminate.
+  - unfold num_of_Z, num_of_int in En. destruct (negb _ && _); [|destruct (post_init _ _ _)]; discriminate.
+Qed.
